@@ -11,6 +11,9 @@ import (
 
 type shape struct {
 	context languages.Context
+
+	// references being expanded: types can be recursive.
+	expanding map[string]struct{}
 }
 
 func (generator *shape) typeShape(def ast.Type) string {
@@ -65,6 +68,17 @@ func (generator *shape) refShape(def ast.Type) string {
 	if referredObj.Type.IsStruct() {
 		return "mixed"
 	}
+
+	if generator.expanding == nil {
+		generator.expanding = make(map[string]struct{})
+	}
+	if _, found := generator.expanding[def.Ref.String()]; found {
+		// recursive alias (`M: [string]: M`)
+		return "mixed"
+	}
+
+	generator.expanding[def.Ref.String()] = struct{}{}
+	defer delete(generator.expanding, def.Ref.String())
 
 	return generator.typeShape(referredObj.Type)
 }
